@@ -737,10 +737,15 @@ def cases(rng, budget, T):
     for _ in range(25 * budget):
         code = rng.choice(both)
         tbl = table(cs_of[code])
-        orf = _orf(rng, tbl, rng.randint(8, 30))
-        s = "".join(rng.choice(BASES) for _ in range(rng.randint(0, 2))) + orf + "".join(rng.choice(BASES) for _ in range(rng.randint(0, 2)))
-        if rng.random() < 0.5:
-            s = o_rc(s)
+        want_unique = rng.random() < 0.8
+        for _try in range(40):
+            orf = _orf(rng, tbl, rng.randint(25, 60))
+            s = "".join(rng.choice(BASES) for _ in range(rng.randint(0, 2))) + orf + "".join(rng.choice(BASES) for _ in range(rng.randint(0, 2)))
+            if rng.random() < 0.6:
+                s = o_rc(s)
+            # mostly sequences with exactly ONE stop-free frame, so the expected strand / frame is determined
+            if not want_unique or sum(_clean(f[2]) for f in _frames(tbl, s)) == 1:
+                break
         if rng.random() < 0.15:
             s = "".join(rng.choice(BASES) for _ in range(rng.randint(20, 60)))
         allow_rc = rng.random() < 0.7
